@@ -63,20 +63,23 @@ impl PriorityReceiver {
 			return Some(message);
 		}
 
+		// a closed and drained queue disables its branch: None is only returned once all the
+		// job handles are gone and every control already queued has been received
 		if let Some(timer) = stop_timer.clone() {
 			select! {
 				() = timer.to_sleep() => {
 					*stop_timer = None;
 					Some(timer.to_control())
 				}
-				message = self.urgent.recv() => message,
-				message = self.high.recv() => message,
+				Some(message) = self.urgent.recv() => Some(message),
+				Some(message) = self.high.recv() => Some(message),
 			}
 		} else {
 			select! {
-				message = self.urgent.recv() => message,
-				message = self.high.recv() => message,
-				message = self.normal.recv() => message,
+				Some(message) = self.urgent.recv() => Some(message),
+				Some(message) = self.high.recv() => Some(message),
+				Some(message) = self.normal.recv() => Some(message),
+				else => None,
 			}
 		}
 	}
